@@ -55,7 +55,9 @@ func (f *MemFile) Chdir() error {
 		return &fs.PathError{Op: op, Path: f.name, Err: err}
 	}
 
-	_ = f.vfs.SetCurDir(f.name)
+	// The current directory is always an absolute path.
+	absPath, _ := f.vfs.Abs(f.name)
+	_ = f.vfs.SetCurDir(absPath)
 
 	return nil
 }
